@@ -271,7 +271,7 @@ func genSearchScenario(rng *rand.Rand, profile string, thorough bool) *SearchSce
 			if rng.IntN(3) == 0 {
 				st.TwinOptOrder = 1 + rng.IntN(1000)
 			}
-			if n < 100 && rng.IntN(24) == 0 {
+			if n < 100 && rng.IntN(10) == 0 {
 				// a search deep enough for depth-dependent heuristics, on a table small
 				// enough for signature collisions, compared with the Debug option flipped
 				st.Req.Limits = Limits{Nodes: -1, SoftNodes: pick(rng, []int{20000, 40000})}
